@@ -24,8 +24,18 @@ def run(tier, seed, replay):
     cpath = os.path.join(wd, "cases.ndjson")
     open(cpath, "w").write("\n".join(json.dumps(c) for c in cases) + "\n")
     tpath = os.path.join(wd, "trace.ndjson"); spath = os.path.join(wd, "stats.json")
-    vf.run_driver(vh, ["c17", "-cases", cpath, "-trace", tpath, "-stats", spath, "-seed", str(seed)], wd)
-    st = json.load(open(spath))
+    # first half of the cases on a chain where only v0 has an EVM address (registrations happen through the commits), second
+    # half on a chain where all three are registered and the two checkpoints order them differently (slots follow the
+    # previous set)
+    half = len(cases) // 2
+    cp1, cp2 = cpath + ".1", cpath + ".2"
+    open(cp1, "w").write("\n".join(json.dumps(c) for c in cases[:half]) + "\n")
+    open(cp2, "w").write("\n".join(json.dumps(c) for c in cases[half:]) + "\n")
+    vf.run_driver(vh, ["c17", "-cases", cp1, "-trace", tpath + ".1", "-stats", spath + ".1", "-seed", str(seed)], wd)
+    vf.run_driver(vh, ["c17", "-cases", cp2, "-trace", tpath + ".2", "-stats", spath + ".2", "-seed", str(seed), "-allreg"], wd)
+    s1, s2j = json.load(open(spath + ".1")), json.load(open(spath + ".2"))
+    st = {"cases": s1["cases"] + s2j["cases"], "mutations": s1["mutations"] + s2j["mutations"], "panics": s1["panics"] + s2j["panics"], "samples": s1["samples"] + s2j["samples"]}
+    open(tpath, "w").write(open(tpath + ".1").read() + open(tpath + ".2").read())
     lines = open(tpath).read().splitlines()
     with open(tpath, "w") as f:
         for i, ln in enumerate(lines):
